@@ -345,3 +345,23 @@ reg(
     {"run": _c09.run, "replay": _c09.replay, "replay_case": None},
     exhaustive={"quick": True, "thorough": True},
 )
+
+
+from . import c19 as _c19  # noqa: E402
+
+reg(
+    "C19",
+    "Output of one print call is never interleaved with another thread's",
+    "exploration",
+    "cases = (a) records <tid:seq:payload:crc> printed by 2..16 threads through print!/println!/eprintln!/write!/write_all/writeln!/"
+    "write_fmt/locked writes on anstream::stdout()/stderr(), each assembled from 5 format fragments whose Display impls yield or spin "
+    "(delay injected on the caller side), in stripping and pass-through mode, read from pipes and checked offline: every line is exactly "
+    "one expected record, each (tid,seq) exactly once, per-thread order kept, no ESC in stripping mode; (b) invocation/response histories "
+    "of concurrent write_global()/global() checked as an atomic register (native, under Miri with many scheduler seeds, under "
+    "ThreadSanitizer in the thorough tier); non-trivial = every record / history event; distinct = distinct (run, tid, seq) records and "
+    "history events (Miri: distinct histories)",
+    ["a run with fewer than 100 observed thread switches between consecutive records is reported inconclusive",
+     "register check: a read must return the initial value or a value whose write was invoked before the read responded and was not "
+     "certainly overwritten before the read was invoked (values are not unique, so this is the necessary condition of linearizability)"],
+    {"run": _c19.run, "replay": _c19.replay, "replay_case": None},
+)
